@@ -296,6 +296,12 @@ def residual_class(code, fn, tree, v):
     if any(len(bs) >= 2 for q, bs in jfs) and (
             kind == "NONUNIQUE" or reason in ("ReturnWithHandlers", "HandlerAboveStack", "ReturnPending") + loop_reasons):
         return "early_exit_skips_finally"
+    # jumpfinally_open_upvalue: JumpFinally truncates to the handler height without closing the upvalues of the
+    # discarded slots (vm.rs jump_finally_impl): a Closure capturing a local inside the try body before the return
+    if reason == "PopCaptured" and any(
+            any(nm == "Closure" and nx - p > 3 and r["body"] <= p < q for (p, nm, a, b, nx) in ins for r in bs)
+            for q, bs in jfs):
+        return "jumpfinally_open_upvalue"
     # finally_local: a finally region without catch is entered at h (normal) and h+1 (exception)
     if finally_only and has_endfinally:
         first = min(r["fin"] for r in finally_only)
@@ -511,7 +517,6 @@ JUMP_FAMILIES = [
     ("if_else(Jump)", lambda a, b: "if true {} else {" + _stmts(a, b) + "}", lambda t: _first(t, "Jump")),
     ("and(JumpIfFalse)", lambda a, b: "var x = true && " + _expr(a, b) + ";", lambda t: _first(t, "JumpIfFalse")),
     ("or(Jump)", lambda a, b: "var x = false || " + _expr(a, b) + ";", lambda t: _first(t, "Jump")),
-    ("while_exit(JumpIfFalse)", lambda a, b: "while false {" + _stmts(a, b) + "}", lambda t: _first(t, "JumpIfFalse")),
     ("while_back(Loop)", lambda a, b: "while false {" + _stmts(a, b) + "}", lambda t: _first(t, "Loop")),
     ("for_back(Loop)", lambda a, b: "for i in 0..1 {" + _stmts(a, b) + "}", lambda t: _first(t, "Loop")),
     ("fn_while_back(Loop)", lambda a, b: "fn f(p) { var l = p; while l {" + _stmts(a, b) + "} return l; }",
@@ -524,6 +529,10 @@ JUMP_FAMILIES = [
 ]
 JUMP_SIZES = [65534, 65535, 65536, 65537]
 JUMP_LIMIT = 65535      # what a u16 operand can carry
+# the exit jump of a while loop is always 4 bytes shorter than the Loop of the same statement (condition `false`:
+# 1 byte): the largest exit jump that can compile is 65531
+WHILE_EXIT = ("while_exit(JumpIfFalse;Loop=+4)", lambda a, b: "while false {" + _stmts(a, b) + "}",
+              lambda t: _first(t, "JumpIfFalse"), 65531, [65530, 65531, 65532, 65533])
 
 
 def _names(p, n):
@@ -550,13 +559,13 @@ COUNT_FAMILIES = [
     ("interpolation_parts_text", 255, lambda n: 'while false { var s = "%s"; }' % ("${1}x" * (n // 2) + ("${1}" if n % 2 else ""))),
     ("parameters", 255, lambda n: "fn f(%s) { return p0; }" % ", ".join(_names("p", n))),
     ("lambda_parameters", 255, lambda n: "var f = |%s| p0;" % ", ".join(_names("p", n))),
-    ("method_parameters", 254, lambda n: "class K { fn m(self, %s) { return p0; } }" % ", ".join(_names("p", n))),
+    ("method_parameters", 255, lambda n: "class K { fn m(self, %s) { return p0; } }" % ", ".join(_names("p", n))),
     ("locals", 255, lambda n: "fn f() { %s return l0; }" % "".join("var %s = nil;" % x for x in _names("l", n))),
     ("block_locals_in_loop", 255, lambda n: "fn f() { while false { %s } }" % "".join("var %s = nil;" % x for x in _names("l", n))),
     ("captured_variables", 256, _captures),
 ]
 COUNT_DELTAS = [0, 1, 2]
-CONST_FAMILY = ("constants", 65536, lambda n: "".join("%d;" % i for i in range(n)), [65535, 65536, 65537])
+CONST_FAMILY = ("constants", 65536, lambda n: "".join("%d;" % i for i in range(n)), [4096, 65535, 65536, 65537])
 
 
 def limit_family(binary, quick=True):
@@ -564,11 +573,12 @@ def limit_family(binary, quick=True):
     rows, sources = [], []
     # calibration of the jump families: operand = base + ua*na + ub*nb
     cal_src = []
-    for name, build, probe in JUMP_FAMILIES:
+    for name, build, probe in JUMP_FAMILIES + [WHILE_EXIT[:3]]:
         cal_src += [build(10, 0), build(11, 0), build(10, 1)]
     cal = compile_sources(binary, cal_src)
     plans = []
-    for k, (name, build, probe) in enumerate(JUMP_FAMILIES):
+    fams = [(n_, b_, p_, JUMP_LIMIT, JUMP_SIZES) for (n_, b_, p_) in JUMP_FAMILIES] + [WHILE_EXIT]
+    for k, (name, build, probe, jlimit, jsizes) in enumerate(fams):
         c = cal[3 * k:3 * k + 3]
         if any(x[0] != "ok" for x in c):
             rows.append({"family": name, "error": "calibration program did not compile"})
@@ -579,13 +589,13 @@ def limit_family(binary, quick=True):
             continue
         ua, ub = d1 - d0, d2 - d0
         base = d0 - 10 * ua
-        for size in JUMP_SIZES:
+        for size in jsizes:
             rest = size - base
             nb = 0
             while nb < 4 and (rest - ub * nb) % ua != 0:
                 nb += 1
             na = (rest - ub * nb) // ua
-            plans.append(("jump", name, JUMP_LIMIT, size, build(na, nb), probe))
+            plans.append(("jump", name, jlimit, size, build(na, nb), probe))
     for name, limit, build in COUNT_FAMILIES:
         for d in COUNT_DELTAS:
             plans.append(("count", name, limit, limit + d, build(limit + d), None))
@@ -607,7 +617,15 @@ def limit_family(binary, quick=True):
                 row["operand"] = probe(tree)
             row["line_table_ok"] = line_table_ok(tree)
             it = Item("limit:%s:%d" % (name, size), src if len(src) < 4000 else None, tree, "limit", row)
-            items.append(it)
+            if name == "constants" and quick and size > 20000:
+                # const_at is a list lookup: 65536 constants cost ~n^2/2 steps under vm_compute (minutes).  Quick tier:
+                # operand range checked here (diagnostic), the proved verifier runs on it in the thorough tier.
+                fn0 = tree[0]
+                bad = [i for i in listing(fn0, tree) if i[1] in L16 and i[1] not in JUMPS + ("Loop",) and i[2] >= len(fn0.consts)]
+                row["verifier"] = "thorough-tier-only (python: %s constants, operands in range: %s)" % (len(fn0.consts), not bad)
+                row["python_operands_ok"] = not bad
+            else:
+                items.append(it)
         rows.append(row)
     return rows, items, {(p[1], p[3]): p[4] for p in plans}
 
@@ -955,6 +973,304 @@ class Gen:
 
 
 def gen_program(rng, profile, size=None):
-    g = Gen(rng, profile, size=size or rng.choice([8, 15, 25, 40, 60]))
+    g = Gen(rng, profile, size=size or rng.choice([6, 12, 20, 30, 45]))
     src = g.program()
     return src, sorted(g.features)
+
+
+# ------------------------------------------------------------------------------------------------
+# the check
+
+CORE_YL = os.path.join(yvlib.REPO, "yarel", "src", "core.yl")
+SCRIPTS = os.path.join(yvlib.REPO, "yarel", "tests", "scripts")
+
+
+def corpus_sources():
+    out = []
+    for root, dirs, files in sorted(os.walk(SCRIPTS)):
+        dirs.sort()
+        for f in sorted(files):
+            p = os.path.join(root, f)
+            if f.endswith(".yl") and os.path.isfile(p):
+                with open(p, "rb") as fh:
+                    out.append((os.path.relpath(p, SCRIPTS), fh.read()))
+    return out
+
+
+def core_items(binary, ctx):
+    """functions of core.yl: (a) through the class method tables of a VM with built-ins (what really runs),
+    (b) core.yl compiled as a script (covers the class bodies' script code as well)"""
+    items = []
+    try:
+        with open(CORE_YL) as fh:
+            core_src = fh.read()
+    except OSError:
+        ctx.notes.append("core.yl not found at %s: core functions skipped" % CORE_YL)
+        return items, 0
+    names = re.findall(r"^class\s+([A-Za-z_]\w*)", core_src, re.M)
+    rec = yvlib.run_harness(binary, ["corefns " + " ".join(names)], shards=1)[0]
+    if rec.crashed or not any(l.startswith("CLASS ") for l in rec.lines):
+        ctx.notes.append("harness command `corefns` unavailable (%s): core method tables skipped" % (rec.crashed or rec.lines[:1]))
+    else:
+        missing = [l for l in rec.lines if l.startswith("NOCLASS")]
+        if missing:
+            ctx.corr_broken.append("core classes not found as globals of module main: %s" % missing[:3])
+        trees, labels = parse_trees(rec.lines)
+        for t, lab in zip(trees, labels):
+            items.append(Item("core:" + lab, None, t, "core"))
+    r = compile_sources(binary, [core_src])[0]
+    if r[0] == "ok":
+        items.append(Item("core:core.yl", core_src, r[1], "core"))
+    else:
+        ctx.notes.append("core.yl does not compile as a script: %s" % str(r[1])[:200])
+    return items, len(names)
+
+
+def unknown_flags(it):
+    return [(k, fn, vd) for (k, fn, vd, cls) in it.flags if cls is None]
+
+
+def failing_predicate(binary, tag):
+    """for shrinking: does this source still compile to something with an unclassified flagged function?"""
+    counter = [0]
+
+    def fails(src):
+        counter[0] += 1
+        r = compile_sources(binary, [src])[0]
+        if r[0] != "ok":
+            return False
+        it = Item("shrink", src, r[1], "shrink")
+        judge([it], "%s_shrink" % tag)
+        return bool(unknown_flags(it)) or it.head.get("ALL") == "?" or not line_table_ok(r[1])
+    return fails
+
+
+def describe(it, k, fn, vd):
+    ins = listing(fn, it.tree)
+    near = [i for i in ins if abs(i[0] - vd.get("pc", 0)) <= 12]
+    return {"function": fn.name or "<script>", "fn_index_bfs": k, "verdict": vd["raw"][:300],
+            "code_hex": fn.code.hex() if len(fn.code) <= 600 else fn.code[:600].hex() + "...",
+            "near_pc": ["%d %s %d %d" % (i[0], i[1], i[2], i[3]) for i in near]}
+
+
+def run(ctx):
+    quick = ctx.quick()
+    rng = ctx.rng
+    binary = ctx.harness("debug")
+    findings = load_findings()
+    official = {k.get("class") for k in ctx.known_open()}
+    items = []
+    counts = {"scripts": 0, "scripts_compiled": 0, "scripts_compile_error": 0, "scripts_not_compilable_input": 0}
+
+    # ---- replay of one failing input
+    if ctx.replay_only:
+        src = ctx.replay_only.get("input")
+        if isinstance(src, str):
+            r = compile_sources(binary, [src])[0]
+            exp = ctx.replay_only.get("expected")
+            if r[0] == "ok":
+                it = Item("replay", src, r[1], "replay")
+                judge([it], "C04replay")
+                for (k, fn, vd) in unknown_flags(it):
+                    ctx.violation("compiled function rejected by the bytecode verifier", input=src, expected="OK, unique heights",
+                                  actual=vd["raw"][:300], **describe(it, k, fn, vd))
+                if exp == "compile error" and not ctx.violations:
+                    ctx.violation("program past an encoding limit compiles", input=src, expected="compile error", actual="Ok")
+            elif r[0] == "crash":
+                ctx.violation("compiler crashed", input=src, expected="Ok or Err", actual=str(r[1]))
+        ctx.cov.update({"evaluations": 1, "distinct_nontrivial": 0, "rule": "replay", "samples": [str(src)[:300]]})
+        return
+
+    # ---- 1. the test scripts
+    corpus = corpus_sources()
+    res = compile_sources(binary, [s for _, s in corpus])
+    for (name, src), r in zip(corpus, res):
+        counts["scripts"] += 1
+        if r[0] == "ok":
+            counts["scripts_compiled"] += 1
+            try:
+                text = src.decode("utf-8")
+            except UnicodeDecodeError:
+                text = None
+            items.append(Item("script:" + name, text, r[1], "scripts"))
+        elif r[0] == "err":
+            counts["scripts_compile_error"] += 1
+        else:
+            counts["scripts_not_compilable_input"] += 1   # not UTF-8 etc.: the harness cannot even pass it on
+    # ---- 2. core.yl
+    citems, ncore = core_items(binary, ctx)
+    items += citems
+    # ---- 3. generated programs
+    n_clean, n_full = (1200, 800) if quick else (18000, 12000)
+    scale = float(os.environ.get("C04_GEN_SCALE", "1"))      # developer knob (mutation experiments); default 1
+    n_clean, n_full = max(1, int(n_clean * scale)), max(1, int(n_full * scale))
+    gen = [("clean",) + gen_program(rng, "clean") for _ in range(n_clean)] + \
+          [("full",) + gen_program(rng, "full") for _ in range(n_full)]
+    gres = compile_sources(binary, [g[1] for g in gen])
+    gen_err = 0
+    feature_hist = {}
+    for i, ((prof, src, feats), r) in enumerate(zip(gen, gres)):
+        if r[0] == "ok":
+            items.append(Item("gen:%s:%d" % (prof, i), src, r[1], "gen_" + prof, feats))
+            for f in feats:
+                feature_hist[f] = feature_hist.get(f, 0) + 1
+        elif r[0] == "err":
+            gen_err += 1
+        else:
+            ctx.violation("compiler crashed on a generated program", input=src, expected="Ok or Err", actual=str(r[1])[:300])
+    # ---- 4. limit family
+    rows, litems, lsrc = limit_family(binary, quick)
+    items += litems
+    # ---- wire self-test: the model must see exactly the bytes the compiler produced
+    probe = [it for it in items if sum(len(f.code) for f in it.tree if f) < 3000][:6] + litems[:1]
+    echo = yvlib.coq_eval(IMPORTS, ["echo_w %s" % wire_with(it.tree)[0] for it in probe], shard_size=2, tag="C04echo", preamble=PREAMBLE)
+    for it, e in zip(probe, echo):
+        if e != echo_of(it.tree):
+            ctx.corr_broken.append("wire format: the Coq side decodes %s differently from what was sent" % it.label)
+    # ---- verify everything
+    judge(items, "C04")
+    nfn = 0
+    hist, lenient_hist, class_hist, group_hist = {}, {}, {}, {}
+    witnesses = {}
+    maxh = 0
+    nontrivial = set()
+    ge2_handlers = ge2_captured = 0
+    unsafe_abs = 0
+    viol = []
+    for it in items:
+        g = group_hist.setdefault(it.group, {"programs": 0, "functions": 0, "flagged": 0})
+        g["programs"] += 1
+        if it.head.get("ALL") == "?":
+            ctx.corr_broken.append("model evaluation failed for %s: %s" % (it.label, str(it.head.get("error"))[:200]))
+            continue
+        if not line_table_ok(it.tree):
+            viol.append(("line table length differs from code length", it, None))
+        if it.head.get("safe") == "F":
+            unsafe_abs += 1
+        for k, (fn, vd) in enumerate(zip(it.fns, it.verdicts)):
+            nfn += 1
+            g["functions"] += 1
+            key = vd["kind"] + (":" + vd["reason"] if vd.get("reason") else "")
+            hist[key] = hist.get(key, 0) + 1
+            if vd["kind"] == "OK":
+                maxh = max(maxh, vd.get("maxh", 0))
+                if vd.get("mh", 0) >= 2:
+                    ge2_handlers += 1
+                if vd.get("mc", 0) >= 2:
+                    ge2_captured += 1
+                if vd.get("mh", 0) >= 2 or vd.get("mc", 0) >= 2:
+                    nontrivial.add(fn.code)
+            if "lenient" in vd:
+                lk = vd["lenient"].split(" ")[0]
+                lenient_hist[lk] = lenient_hist.get(lk, 0) + 1
+        for (k, fn, vd, cls) in it.flags:
+            g["flagged"] += 1
+            if cls is None:
+                viol.append(("compiled function rejected by the bytecode verifier", it, (k, fn, vd)))
+            else:
+                for c in cls:
+                    class_hist[c] = class_hist.get(c, 0) + 1
+                    w = witnesses.get(c)
+                    if it.src and (w is None or len(it.src) < len(w["source"])):
+                        witnesses[c] = {"source": it.src, "function": fn.name or "<script>", "verdict": vd["raw"][:200], "label": it.label}
+    # ---- limit table
+    by_label = {it.label: it for it in litems}
+    for row in rows:
+        if "error" in row:
+            ctx.corr_broken.append("limit family %s: %s" % (row["family"], row["error"]))
+            continue
+        it = by_label.get("limit:%s:%d" % (row["family"], row["size"]))
+        if it is not None and it.head.get("ALL") != "?":
+            row["verifier"] = ("OK unique" if it.head.get("ALL") == "T" else "FLAGGED") + " maxh=%s" % it.head.get("maxh")
+            if it.flags:
+                row["verifier"] += " " + "; ".join("%s [%s]" % (vd["raw"][:70], ",".join(cls) if cls else "UNKNOWN") for (k, fn, vd, cls) in it.flags)
+        src = lsrc.get((row["family"], row["size"]))
+        if row["compile"] == "crash":
+            viol.append(("compiler crashed on a limit program", Item("limit", src, None, "limit"), None))
+        elif row["expected_compile"] == "err" and row["compile"] == "ok":
+            row["status"] = "TRUNCATED-OK"
+            viol.append(("program one past the %s limit (%d > %d) compiles" % (row["family"], row["size"], row["bound"]),
+                         Item("limit:%s" % row["family"], src, None, "limit"), "limit"))
+        elif row["expected_compile"] == "ok" and row["compile"] == "err":
+            row["status"] = "REJECTED-BELOW-LIMIT"
+            ctx.corr_broken.append("limit family %s: size %d (<= bound %d) is a compile error: %s - the stated bound is not the compiler's"
+                                   % (row["family"], row["size"], row["bound"], row.get("message")))
+        elif row["compile"] == "ok" and "operand" in row and row["operand"] != row["size"]:
+            row["status"] = "OPERAND-MISMATCH"
+            viol.append(("encoded jump operand %s differs from the distance %d" % (row["operand"], row["size"]),
+                         Item("limit:%s" % row["family"], src, None, "limit"), "limit"))
+        elif row.get("python_operands_ok") is False:
+            row["status"] = "CONST-OPERAND-OUT-OF-RANGE"
+            viol.append(("constant operand out of range", Item("limit:%s" % row["family"], src, None, "limit"), "limit"))
+        else:
+            row["status"] = "ok"
+    # ---- report violations (first one shrunk)
+    fails = failing_predicate(binary, "C04")
+    for n, (what, it, info) in enumerate(viol[:5]):
+        src = it.src
+        extra = {}
+        if info and info != "limit":
+            k, fn, vd = info
+            extra = describe(it, k, fn, vd)
+            if n == 0 and src and len(src) < 20000:
+                small = shrink_source(src, fails, budget=30)
+                if small != src and fails(small):
+                    src = small
+                    r = compile_sources(binary, [src])[0]
+                    it2 = Item("shrunk", src, r[1], "shrunk")
+                    judge([it2], "C04_shrunk")
+                    uf = unknown_flags(it2)
+                    if uf:
+                        extra = describe(it2, *uf[0])
+        if src is None and it.tree is not None:
+            src = "(no source: %s) wire=%s" % (it.label, wire_with(it.tree)[0][:2000])
+        ctx.violation(what, input=src if src is None or len(src) < 200000 else src[:1000] + "...(%d bytes; family program, rebuild with tools/props/C04.py limit_family)" % len(src),
+                      expected="compile error" if info == "limit" else "verifier: OK with unique heights", actual=extra.get("verdict", "compiler said Ok"),
+                      label=it.label, **{k_: v_ for k_, v_ in extra.items() if k_ != "verdict"})
+    if len(viol) > 5:
+        ctx.notes.append("%d more failing cases not reported individually" % (len(viol) - 5))
+    # ---- known classes: official ones become KNOWN-FINDING lines, the rest is pending in notes/C04-findings.json
+    pending = {}
+    for c, n_ in sorted(class_hist.items()):
+        w = witnesses.get(c, {})
+        if c in official:
+            ctx.violation("known defect class %s" % c, input=w.get("source"), expected="verifier OK", actual=w.get("verdict"), known_class=c)
+        elif c in findings:
+            pending[c] = n_
+        else:
+            # a class name the classifier produced but nobody recorded: treat as unknown
+            ctx.violation("flagged functions of class %s, which is recorded neither in known_findings.json (property C04) nor in notes/C04-findings.json" % c,
+                          input=w.get("source"), expected="verifier OK", actual=w.get("verdict"))
+    if pending:
+        ctx.notes.append("open classes seen, recorded in notes/C04-findings.json but not (yet) under property C04 in known_findings.json: %s" % pending)
+    sample_ok = next((it for it in items if it.group == "gen_clean" and it.src), None)
+    ctx.cov.update({
+        "evaluations": nfn,
+        "programs": len(items),
+        "functions_verified": nfn,
+        "distinct_nontrivial": len(nontrivial),
+        "rule": "every function of every compiled program is one evaluation of the proved verifier (strict mode); non-trivial = a verified "
+                "function whose reachable states include >= 2 simultaneously pushed handlers or >= 2 simultaneously open captured slots "
+                "(distinct code bytes counted)",
+        "functions_with_ge2_handlers": ge2_handlers, "functions_with_ge2_captured": ge2_captured,
+        "verdict_histogram": hist, "lenient_histogram_of_rejected(diagnostic)": lenient_hist,
+        "max_height_seen": maxh, "programs_exceeding_abs_stack_bound(maxh*FRAMES_MAX>STACK_MAX)": unsafe_abs,
+        "known_class_histogram": class_hist, "known_class_witnesses": {c: w["source"][:600] for c, w in witnesses.items()},
+        "groups": group_hist, "scripts": counts, "core_classes": ncore,
+        "generated": {"clean": n_clean, "full": n_full, "compile_errors": gen_err, "feature_histogram": feature_hist},
+        "limit_family": [{k_: v_ for k_, v_ in r.items() if k_ not in ("line_table_ok",)} for r in rows],
+        "samples": [sample_ok.src[:500] if sample_ok else "", next((r_["family"] + ":" + str(r_["size"]) for r_ in rows if "size" in r_), "")],
+        "traces_validated_against_impl": len(items),
+        "disagreements_checked": sum(len(it.flags) for it in items),
+    })
+
+
+def search(ctx):
+    """obligations broken (e.g. the opcode table or a limit constant changed): look for a failing input with the
+    thorough generator"""
+    old = ctx.tier
+    ctx.tier = "thorough"
+    try:
+        run(ctx)
+    finally:
+        ctx.tier = old
